@@ -4,6 +4,7 @@
 -/
 import Z80.Model.Exec
 import Z80.Model.Tables
+import Z80.Spec.Budget
 namespace Z80
 
 structure Debug where
@@ -182,6 +183,14 @@ def executeTimed (c : Cpu) (elapsed : Option UInt32) : Cpu × Option UInt32 :=
     f32 computation `(f * 1_000_000) / (1000 / d)` yields is exact on this grid: n8 * 125 * d. -/
 def Cpu.setFreqEighths (c : Cpu) (n8 : UInt32) : Cpu :=
   { c with slice := { c.slice with max := n8 * 125 * c.slice.duration } }
+
+/-- `set_freq(f)` for an arbitrary positive normal single `f` (given by its bit pattern) after
+    `set_slice_duration(d)`, d dividing 1000: the budget is the whole part of f x 1000 x d.  (The f32 code of the
+    implementation is compared with this value wherever the fraction left over is not within 0.05 of an integer.) -/
+def Cpu.setFreqBits (c : Cpu) (bits : UInt32) : Cpu :=
+  match Spec.budgetOfBits bits c.slice.duration.toNat with
+  | some (b, _) => { c with slice := { c.slice with max := UInt32.ofNat b } }
+  | none => c
 
 def Cpu.setSliceDuration (c : Cpu) (d : UInt32) : Cpu := { c with slice := { c.slice with duration := d } }
 
